@@ -1,6 +1,7 @@
 package play
 
 import (
+	"github.com/berquerant/crd/input"
 	"github.com/berquerant/crd/note"
 	"github.com/berquerant/crd/op"
 	vf "github.com/berquerant/crd/zz_verif"
@@ -42,5 +43,54 @@ func VerifC05Transpose() {
 	// the distance between the tonics as notes of the octave of middle C (Cb4 = 59 … B4 = 71)
 	dr := spec.RawPitch(l2, a2) - spec.RawPitch(l1, a1)
 	vf.Assert("shift-is-the-distance-between-the-tonics", d0 == uint8(dr))
+	vf.Reach("end")
+}
+
+// VerifC05MetaEcho: `text conv` echoes every {key=…,bpm=…,vel=…,mtr=…} among the metadata of
+// the instance as well. Those echoes are texts: the key (tempo, meter, dynamic) in force is what
+// the instance's own fields say — the echo may disagree with them after a --key override or a
+// hand edit — and a metadata entry never states another setting in the file.
+func VerifC05MetaEcho() {
+	keys := []string{"C", "D", "Am", "Gb", "F#m", "H", ""}
+	a := newMidiArgs()
+	a.writeWhenUpdated(&verifRec{}) // consume the initial state
+	k0 := a.getKey()
+	v0 := a.getVelocity()
+	var inst op.Instance
+	fieldC := vf.NondetIntRange("key-field", 0, 4) // 0: the instance has no key field
+	if fieldC > 0 {
+		k, err := op.ParseKey(keys[fieldC-1])
+		vf.Assert("key-parses", err == nil)
+		inst.Key = &k
+	}
+	m := op.Meta(map[string]string{})
+	echo := keys[vf.NondetIntRange("key-echo", 0, len(keys)-1)]
+	if echo != "" {
+		m[input.MetaKeyKey] = echo
+	}
+	if vf.NondetIntRange("other-echoes", 0, 1) == 1 {
+		m[input.MetaBPMKey] = "180"
+		m[input.MetaVelocityKey] = "ff"
+		m[input.MetaMeterKey] = "3/4"
+	}
+	inst.Meta = &m
+	rec := &verifRec{}
+	a.update(inst)
+	a.writeWhenUpdated(rec)
+	want := k0
+	if inst.Key != nil {
+		want = *inst.Key
+	}
+	g := a.getKey()
+	vf.Assert("key-in-force-is-the-key-field", g.Name == want.Name && g.Accidental == want.Accidental && g.Minor == want.Minor)
+	vf.Assert("dynamic-in-force-unchanged-by-echo", a.getVelocity() == v0)
+	// (a redundant event restating the setting in force would be harmless; one stating the echo is not)
+	if c := rec.first(vcTempo); c != nil {
+		vf.Assert("echo-states-no-other-tempo", c.bpm == int(defaultBPM))
+	}
+	if c := rec.first(vcMeter); c != nil {
+		vf.Assert("echo-states-no-other-meter", c.num == uint8(defaultMeter.Num) && c.den == uint8(defaultMeter.Denom))
+	}
+	vf.Assert("at-most-one-key-event", rec.count(vcKey) <= 1 && (inst.Key == nil || rec.count(vcKey) == 1))
 	vf.Reach("end")
 }
